@@ -176,9 +176,11 @@ def writeMessage (c : WConn) (m : Msg) : WConn :=
 
 /-- `PreparedMessage.frame(key)`: the bytes of `WriteMessage` on a scratch
     connection with a default-size buffer -/
+def WConn.scratch (isServer : Bool) (defBuf : Nat) : WConn :=
+  { isServer, bufSize := defBuf, buf := some (WBuf.fresh defBuf), pool := none, out := [] }
+
 def preparedFrame (isServer : Bool) (defBuf : Nat) (m : Msg) : Bytes :=
-  (writeMessage { isServer, bufSize := defBuf, buf := some (WBuf.fresh defBuf),
-                  pool := none, out := [] } m).out
+  (writeMessage (WConn.scratch isServer defBuf) m).out
 
 /-- `Conn.WritePreparedMessage` -/
 def writePrepared (c : WConn) (defBuf : Nat) (m : Msg) : WConn :=
